@@ -123,6 +123,55 @@ theorem pipeline_outcome_unique (i : PipeIn) (A : Prog) (hA : pipeline i = some 
   have e1 := hm (max m0 f2) (Nat.le_max_left _ _)
   rw [← run_stable h2 (Nat.le_max_right m0 f2), e1]
 
+/-! ## the back half: Go generation and dead-code elimination
+
+`go/compile.rs` has no Lean model yet (worker `gocomp` is building one): it enters as the
+hypothesis `hcompile : CompileSim compile A` — a PARAMETER of the theorem, not an axiom.
+
+`go/dce.rs` has the per-block theorem `Dce.dce_preserves` (`Props/Dce.lean`: a definite `Go.Sem`
+run of a block is reproduced by its DCE'd form, callees looked up in the SAME file on both sides).
+It could not be chained, because C01 needs the statement for FILES, `runGo (eliminateDeadVars G)`
+against `runGo G`, and that lifting is not available:
+ * `Go.Sem.zero` (zero value of a declared type, used by `var x T` and by composite literals)
+   is a `partial def` taking the file as an argument, i.e. an opaque constant of the logic, so
+   `zero G` and `zero (eliminateDeadVars G)` are unrelated terms although the struct declarations
+   they read are the same — no theorem can connect runs in two different files until `zero` is
+   made total (a change of the shared semantics `Model/GoSem.lean`, not made here);
+ * `prune_dead_functions` additionally needs the invariant that every function value reachable
+   from `main` names a function in the reachable set (`Dce.prune_funcs_closed` is its syntactic
+   half).
+So the file-level statement is the second, clearly marked hypothesis `hdce : DceFileSim G`; it is
+VALIDATED on every run by `./check dce` / `./check C09` (oracle `gosem`: `Go.Sem` of the real DCE
+output = `Go.Sem` of its input, per program).
+
+    -- full statement (the goal), with `compile`, `eliminateDeadVars` the models of the two passes:
+    -- theorem end_to_end : pipeline i = some A → Definite (Sem.run fuel i.prog) →
+    --   ∃ m, Go.runGo m (eliminateDeadVars (compile A)) = Sem.run fuel i.prog
+-/
+open Goml.Go in
+/-- **end_to_end_partial.**  For every Core program in `InPipeFragment`, every definite `Sem` run of
+    `main` is reproduced by `Go.Sem` of the emitted Go file — before and after dead-code
+    elimination — GIVEN the two links that are not theorems yet: `hcompile` (`go/compile.rs`
+    preserves the meaning of the ANF program the middle end produced) and `hdce` (file-level
+    lifting of `dce_preserves`, see above).  Everything between Core and ANF is proved
+    (`pipeline_preserves`). -/
+theorem end_to_end_partial (i : PipeIn) (A : Prog) (hA : pipeline i = some A) (hfrag : InPipeFragment i)
+    (compile : Prog → GFile) (hcompile : CompileSim compile A) (hdce : DceFileSim (compile A))
+    (fuel : Nat) (eager : Bool) (hdef : Definite (run fuel i.prog "main" eager)) :
+    (∃ m, runGo m (compile A) "main" eager = run fuel i.prog "main" eager) ∧
+    (∃ m, runGo m (Dce.eliminateDeadVars (compile A)) "main" eager = run fuel i.prog "main" eager) :=
+  back_half (fun f e h => pipeline_preserves i A hA hfrag f e h) compile hcompile hdce fuel eager hdef
+
+/-- with `go/compile.rs` alone as hypothesis: the emitted file BEFORE dead-code elimination -/
+theorem end_to_end_before_dce (i : PipeIn) (A : Prog) (hA : pipeline i = some A) (hfrag : InPipeFragment i)
+    (compile : Prog → Goml.Go.GFile) (hcompile : CompileSim compile A)
+    (fuel : Nat) (eager : Bool) (hdef : Definite (run fuel i.prog "main" eager)) :
+    ∃ m, Goml.Go.runGo m (compile A) "main" eager = run fuel i.prog "main" eager := by
+  obtain ⟨m0, hm0⟩ := pipeline_preserves i A hA hfrag fuel eager hdef
+  have e0 := hm0 m0 (Nat.le_refl _)
+  obtain ⟨m1, hm1⟩ := hcompile m0 eager (by rw [e0]; exact hdef)
+  exact ⟨m1, by rw [hm1, e0]⟩
+
 /-! ## non-vacuity: three real Core dumps (closure + generic + match; `Lemmas/PipeExamples.lean`) -/
 section Examples
 open Examples
